@@ -291,7 +291,11 @@ pub struct Exec<'a> {
     pub steps: Cell<u64>,
     pub limit: u64,
     pub aborted: Cell<bool>,
+    /// recursion depth of RepeatMatcher (the reference declines - never judges - beyond MAX_DEPTH)
+    pub depth: Cell<u32>,
 }
+
+pub const MAX_DEPTH: u32 = 6000;
 
 type K<'k> = &'k dyn Fn(&St) -> Option<St>;
 
@@ -369,6 +373,18 @@ impl<'a> Exec<'a> {
         if max == Some(0) {
             return k(x);
         }
+        if self.depth.get() > MAX_DEPTH {
+            self.aborted.set(true);
+            return None;
+        }
+        self.depth.set(self.depth.get() + 1);
+        let r = self.repeat_inner(body, min, max, greedy, x, fwd, pi, pc, k);
+        self.depth.set(self.depth.get() - 1);
+        r
+    }
+
+    #[allow(clippy::too_many_arguments)]
+    fn repeat_inner(&self, body: &Node, min: u64, max: Option<u64>, greedy: bool, x: &St, fwd: bool, pi: usize, pc: usize, k: K) -> Option<St> {
         let d = |y: &St| -> Option<St> {
             if min == 0 && y.e == x.e {
                 return None;
@@ -555,7 +571,7 @@ pub enum ExecResult {
 
 /// RegExpBuiltinExec's scan from `start` (code point indices). Returns the result and the number of steps taken.
 pub fn exec(prog: &Prog, input: &[u32], start: usize, limit: u64) -> (ExecResult, u64) {
-    let ex = Exec { input, unicode: prog.unicode, steps: Cell::new(0), limit, aborted: Cell::new(false) };
+    let ex = Exec { input, unicode: prog.unicode, steps: Cell::new(0), limit, aborted: Cell::new(false), depth: Cell::new(0) };
     let mut last = start;
     while last <= input.len() {
         let x = St { e: last, caps: vec![None; prog.ngroups + 1] };
